@@ -30,6 +30,9 @@ fn stub_normalize(context: Option<&AclContext>) -> Option<NormalizedAclContext> 
     }
 }
 
+// SearchHit::clone as a copy of rank and frame id (the harness hits carry empty strings and no
+// metadata; the real clone walks an Option<metadata> with maps CBMC cannot see to be absent)
+fn g_hit_clone(h: &SearchHit) -> SearchHit { mk_hit(h.rank, h.frame_id) }
 fn mk_hit(rank: usize, frame_id: u64) -> SearchHit {
     SearchHit { rank, frame_id, uri: String::new(), title: None, range: (0, 0), text: String::new(), matches: 0,
                 chunk_range: None, chunk_text: None, score: None, metadata: None }
@@ -44,6 +47,7 @@ verif_proof! { [C12]
     #[kani::stub(evaluate_acl_metadata, stub_evaluate)]
     #[kani::stub(normalize_acl_context, stub_normalize)]
     #[kani::stub(<crate::types::Frame as core::clone::Clone>::clone, crate::verif_env::stub_frame_clone)]
+    #[kani::stub(<crate::types::SearchHit as core::clone::Clone>::clone, g_hit_clone)]
     #[kani::stub(alloc::fmt::format, crate::verif_env::stub_format)]
     fn c12_apply_acl_filter_and_rank() {
         // 2 frames, 2 hits (each naming frame 0, 1 or an unknown frame): straight-line harness code
@@ -189,4 +193,58 @@ verif_proof! { [C12]
     #[kani::use_stub_set(crate::verif_env::memvid_stubs)]
     #[kani::stub(parse_acl_metadata, stub_parse)]
     fn c12_decision_cross_namespace() { decision_core(4); }
+}
+
+// C12 decision order with EMPTY role/group/principal sets on both sides (cheap: no string
+// hashing): tenant isolation comes before visibility; missing/invalid metadata is denied;
+// a restricted frame without any grant is denied.
+fn stub_parse_empty_sets(_metadata: &BTreeMap<String, String>) -> std::result::Result<ParsedFrameAcl, ()> {
+    unsafe {
+        if !PARSE_OK { return Err(()); }
+        Ok(ParsedFrameAcl {
+            tenant_id: if P_TENANT_Y { "y".to_string() } else { "x".to_string() },
+            visibility: if P_PUBLIC { FrameVisibility::Public } else { FrameVisibility::Restricted },
+            roles: HashSet::new(),
+            groups: HashSet::new(),
+            principals: HashSet::new(),
+        })
+    }
+}
+verif_proof! { [C12]
+    #[kani::unwind(4)]
+    #[kani::use_stub_set(crate::verif_env::memvid_stubs)]
+    #[kani::stub(parse_acl_metadata, stub_parse_empty_sets)]
+    fn c12_decision_tenant_and_visibility() {
+        let parse_ok: bool = kani::any();
+        let public: bool = kani::any();
+        let frame_tenant_y: bool = kani::any();
+        unsafe { PARSE_OK = parse_ok; P_TENANT_Y = frame_tenant_y; P_PUBLIC = public; }
+        let ctx_tenant_y: bool = kani::any();
+        let has_subject: bool = kani::any();
+        let ctx = NormalizedAclContext {
+            tenant_id: if ctx_tenant_y { "y".to_string() } else { "x".to_string() },
+            subject_id: if has_subject { Some("p".to_string()) } else { None },
+            roles: HashSet::new(),
+            group_ids: HashSet::new(),
+        };
+        let md = BTreeMap::new();
+        let d = evaluate_acl_metadata(&md, Some(&ctx));
+        let same_tenant = ctx_tenant_y == frame_tenant_y;
+        if d.allowed {
+            assert!(parse_ok, "[C12] a frame with missing/invalid ACL metadata was allowed");
+            assert!(same_tenant, "[C12] a frame of another tenant was allowed");
+            assert!(public, "[C12] a restricted frame was allowed without a matching principal, role or group");
+        } else {
+            assert!(!(parse_ok && same_tenant && public), "[C12] a public frame of the caller's tenant was denied");
+            if parse_ok && !same_tenant { assert!(d.cross_tenant_denied, "[C12] cross-tenant denial not recorded as such"); }
+            if !parse_ok { assert!(d.missing_metadata_denied, "[C12] missing-metadata denial not recorded as such"); }
+        }
+        // no context at all: nothing is filtered
+        let open = evaluate_acl_metadata(&md, None);
+        assert!(open.allowed, "[C12] evaluation without a caller context denied a frame");
+        kani::cover!(d.allowed, "allowed");
+        kani::cover!(!d.allowed && parse_ok && same_tenant, "restricted frame denied");
+        leak(ctx);
+        leak(md);
+    }
 }
